@@ -19,7 +19,7 @@ RULE = ('cases: every grid-world shape with extents 0..N per axis (DiscreteWorld
         'is the coordinate; get_cell(x,y,z) is that very row (row label = id, pos and the distinguishing cell-component values equal '
         'to the coordinate\'s); outside coordinates raise IndexError. Non-trivial shape: >=2 cells; distinct by (world class, extents).')
 ASSUMPTIONS = ['exhaustive only for extents <= N', 'cell ids are obtained with discrete_grid_pos_to_id(x, y, width, z, height) as documented']
-FLOORS = {'quick': {'shapes': 72, 'cells_checked': 720, 'outside_probes': 2000, 'shapes_with_zero_axis': 30, 'line_worlds': 2,
+FLOORS = {'quick': {'shapes': 72, 'cells_checked': 720, 'outside_probes': 2000, 'cells_rechecked_after_update': 700, 'shapes_with_zero_axis': 30, 'line_worlds': 2,
                     'grid_worlds': 8, 'reach:Environments.DiscreteWorld.get_cell': 2700, 'reach:Environments.discrete_grid_pos_to_id': 1400},
           'thorough': {'shapes': 500, 'cells_checked': 20000}}
 EXHAUSTIVE = {'quick': 'all grid shapes with extents 0..4 (125 DiscreteWorld, 4 LineWorld, 16 GridWorld), all in-range and just-outside coordinates',
@@ -80,6 +80,20 @@ def run_case(ctx, case):
                 if tuple(row['pos']) != (x, y, z) or row['code'] != code((x, y, z)) or row['tag'] != f'{x}:{y}:{z}' or row.name != i:
                     raise CaseViolation(f'get_cell({x},{y},{z}) returned row {row.name} pos={row["pos"]} code={row["code"]}', shape=case)
     check(len(seen) == ncells, 'ids do not cover 0..cells-1', shape=case)
+    # models update cell values in place (env.cells[name] = ..., the documented 1-D arrays): a later lookup must show them
+    env.cells['code'] = [code(p) + 7 for p in [tuple(q) for q in table.tolist()]]
+    for i, (x, y, z) in seen.items():
+        row = env.get_cell(x, y, z)
+        ctx.ev()
+        ctx.count('cells_rechecked_after_update')
+        if row['code'] != code((x, y, z)) + 7 or tuple(row['pos']) != (x, y, z):
+            raise CaseViolation(f'get_cell({x},{y},{z}) does not show the cell\'s current component value after the table was updated '
+                                f'(got {row["code"]}, table holds {code((x, y, z)) + 7})', shape=case)
+    if ncells:
+        i0 = ncells // 2
+        env.cells.loc[i0, 'tag'] = 'changed'
+        x, y, z = seen[i0]
+        check(env.get_cell(x, y, z)['tag'] == 'changed', f'get_cell({x},{y},{z}) does not show a single-cell update', shape=case)
     # just outside, every axis and side, the other axes ranging over all in-range values
     for k in range(3):
         others = [rng_ax[j] for j in range(3) if j != k]
